@@ -908,9 +908,12 @@ func (c *checker) bombCases(f *family, g *gridValue, enc []byte) []memCase {
 			if f.DecodeMsg != nil {
 				out = append(out, memCase{f, "DecodeMessage", in, f.MsgLimit, mut})
 			}
-			if b.name == "bomb-2p62" {
+			if b.name == "bomb-2p62" && p.Kind != "slice" {
 				// no limit: the length exceeds what make() can ever satisfy, so
-				// nothing is allocated; the decoder must still not panic
+				// nothing is allocated; the decoder must still not panic.  (Not
+				// at element-slice positions: there decoding continues on the
+				// shifted remainder, i.e. on arbitrary length prefixes without
+				// a limit.)
 				out = append(out, memCase{f, "ReadBinary", in, 0, mut})
 				out = append(out, memCase{f, "ReadBinaryBytes", in, 0, mut})
 			}
